@@ -130,7 +130,9 @@ fn gen(ch: &mut Ch, thorough: bool) -> Option<Case> {
         if !matches!(ft, FT::T | FT::WT) && fa.eq != A1::Ignore && fa.ord != A1::Ignore {
             fa.peq = *ch.of(&[A1::None, A1::KeyEq, A1::KeyNonEq, A1::By]);
         }
-        if ft == FT::U8 && fa.ord == A1::KeyEq && fa.eq == A1::None && fa.peq == A1::None {
+        // next to `#[ord(key = <Eq, Ord value>)]`; on a float field also together with `#[eq(key = <Eq value>)]`, which is
+        // then what `==` must use (not the partial_ord key)
+        if (ft == FT::U8 && fa.eq == A1::None || ft == FT::F32 && matches!(fa.eq, A1::None | A1::KeyEq)) && fa.ord == A1::KeyEq && fa.peq == A1::None {
             fa.pord = *ch.of(&[A1::None, A1::KeyEq, A1::KeyNonEq]);
         }
         attr_text(ft, fa)?;
@@ -172,7 +174,12 @@ fn gen(ch: &mut Ch, thorough: bool) -> Option<Case> {
     }
     let with_ord = fields.iter().any(|f| f.1.pord != A1::None);
     // Ord / PartialOrd are then derived as well: every field must be orderable through its attributes or its type
-    if with_ord && fields.iter().any(|f| f.0 != FT::U8 || matches!(f.1.ord, A1::KeyNonEq | A1::Ignore) || f.1.eq != A1::None && f.1.ord == A1::None) {
+    let not_orderable = |f: &(FT, FA)| match f.0 {
+        FT::U8 => matches!(f.1.ord, A1::KeyNonEq | A1::Ignore) || f.1.eq != A1::None && f.1.ord == A1::None,
+        FT::F32 => !matches!(f.1.ord, A1::KeyEq | A1::By),
+        _ => true,
+    };
+    if with_ord && fields.iter().any(not_orderable) {
         return None;
     }
     let with_hash = ch.flag();
